@@ -126,6 +126,11 @@ def mut_tokens(m):
     if k == "X": return ["X", str(m[1]), str(m[2])]
     return [k]
 
+# generators of inputs that expose LATENT defects of /repo (no library code calls the mutators this way); switched on by the
+# environment variable or automatically once known_findings.json carries an entry matching the key (set in main)
+LATENT = {"setinit": False, "setshr": False}
+LATENT_KEYS = {"setinit": "latent:setinit-on-permuted-object", "setshr": "latent:setshrinking-on-after-off"}
+
 def gen_long(rng, rid, big=False):
     """long run: hundreds of overlapping points, Gaussian kernel, C in {10,100}, eps 1e-3 -> thousands of iterations, several
     periodic shrink events and (usually) the one-time un-shrink inside shrink(); recorded sparsely (tag LRUN)"""
@@ -162,6 +167,12 @@ def gen_hist(rng, rid, big=False):
     c["tag"] = "HIST"; c["stream"] = "hist"; c["shrink"] = 1
     c["maxiter"] = rng.choice([400, 2000, 2000]); c["eps"] = rng.choice([1e-3, 1e-3, 1e-2])
     n = c["n"]; muts = []
+    if rng.random() < 0.2:
+        # the mutators meet a freshly constructed object (first solve skipped): identity permutation, so setInitialSolution(alpha)
+        # - which indexes the matrix rows by position - is well defined
+        muts = [("Z",), ("I", feasible_alpha(rng, c))]
+    elif LATENT["setshr"] and rng.random() < 0.15:
+        c["shrink"] = 0; late_on = True
     scal_ok = c["kind"] == "svm" and not c["matrix"].endswith("g")      # the only instantiation with scaleBoxConstraints(f, v)
     for _ in range(rng.randint(1, 4)):
         r = rng.random()
@@ -174,7 +185,7 @@ def gen_hist(rng, rid, big=False):
             for p in sub:
                 base = 1.0 if c["y"][p] else -1.0
                 muts.append(("L", p, base * f if rng.random() < 0.8 else rng.randint(-8, 8) / 4.0))
-        elif r < 0.6 and os.environ.get("C08_HIST_SETINIT"):
+        elif r < 0.6 and (LATENT["setinit"] or (muts and muts[0] == ("Z",) and all(m[0] in ("Z", "I", "L", "A") for m in muts))):
             muts.append(("I", feasible_alpha(rng, c)))
         elif r < 0.75 and scal_ok:
             f, v = rng.choice([(2.0, 2.0), (0.5, 0.5), (4.0, 4.0), (2.0, 1.0), (4.0, 1.0), (2.0, 0.5), (1.0, 0.5), (1.0, 1.0)])
@@ -182,8 +193,9 @@ def gen_hist(rng, rid, big=False):
         elif r < 0.82: muts.append(("A", rng.randrange(n)))
         elif r < 0.9: muts.append(("X", rng.randrange(n), rng.randrange(n)))
         elif r < 0.95: muts.append(("U",))
-        else: muts.append(("T", 1))
+        else: muts.append(("T", rng.choice([1, 1, 0]) if c["shrink"] else 0))
     c.pop("_scaled", None)
+    if not c["shrink"]: muts.append(("T", 1))     # latent: shrinking switched on after a solve without it
     c["muts"] = muts
     return c
 
@@ -411,7 +423,7 @@ def monitor(c, run, K, stop_first=True, stats=None):
             states.append((name, args, snap, k))
         elif it[0] == "F": states.append(("final", [], it[1], len(run["events"]) - 1))
     prev = None; prevobj = None; sum0 = None; nsmo = 0; amax = 1.0; hscale = 1.0; shrink_on = bool(run["shrink"]); edge_ok = shrink_on
-    nfinal = 0; finals = []
+    nfinal = 0; finals = []; toggled_on = False
     has_setinit = any(m[0] == "I" for m in c.get("muts", []))
     for idx, (name, args, s, ev) in enumerate(states):
         msgs = []
@@ -425,6 +437,7 @@ def monitor(c, run, K, stop_first=True, stats=None):
             f = pfl(args[0]); lo0 = [v * f for v in lo0]; hi0 = [v * f for v in hi0]
         if name in ("setinit", "scale"): sum0 = None
         if name == "setshr":
+            if args[0] == "1" and not shrink_on and not edge_ok: toggled_on = True
             shrink_on = args[0] == "1"
             if not shrink_on: edge_ok = False        # m_gradientEdge is not maintained while m_shrink is false
         # permutation and consistently permuted per-variable data
@@ -531,14 +544,20 @@ def monitor(c, run, K, stop_first=True, stats=None):
                             if not kv <= c["eps"] + 2 * tol:
                                 msgs.append(("end-kkt", "solver reports accuracy %r < eps but the KKT violation with the true gradient lin - K alpha is %r" % (e[3], kv)))
             prevobj = obj
+        if msgs and msgs[0][0] in ("grad", "gedge", "fval", "end-kkt"):
+            # known-latent shapes get their own stable keys (see LATENT_KEYS)
+            if name == "setinit" and prev is not None and prev.perm != list(range(n)):
+                msgs = [(LATENT_KEYS["setinit"], "setInitialSolution(alpha) on an object whose variables are permuted (%s): %s" % (prev.perm[:8], msgs[0][1]))]
+            elif toggled_on:
+                msgs = [(LATENT_KEYS["setshr"], "setShrinking(true) after steps taken with m_shrink = false (edge gradient not maintained): %s" % msgs[0][1])]
         for k, m in msgs: bad.append((ev, k, "%s [event %d: %s %s]" % (m, ev, name, " ".join(args[:6]))))
         if bad and stop_first: break
         if msgs: break          # later states are not meaningful once an invariant is broken
         prev = s
     # ---- object history: the optimum of the reused object against a FRESH object built from the modified data
-    if not bad and run["fresh"] is not None and len(finals) >= 2 and finals[1][2] is not None:
+    if not bad and run["fresh"] is not None and finals and finals[-1][2] is not None:
         ft, fit, fv, facc, fact, fal = run["fresh"]
-        s2, obj2, e2 = finals[1]
+        s2, obj2, e2 = finals[-1]
         stats["fresh_compared"] = stats.get("fresh_compared", 0)
         if len(fal) == n and all(lo0[p] <= fal[p] <= hi0[p] for p in range(n)):
             nzf = [q for q in range(n) if fal[q] != 0.0]
@@ -561,8 +580,8 @@ def monitor(c, run, K, stop_first=True, stats=None):
 # ------------------------------------------------------------------------------------------------
 # model vs implementation (one step each)
 
-def compare_run(run, mlines, n):
-    """-> list of (event_index, message)"""
+def compare_run(run, mlines, n, cf=False):
+    """-> list of (event_index, message); cf: single-precision kernel cache"""
     dis = []
     if len(mlines) != len(run["events"]):
         return [(-1, "model produced %d lines for %d events" % (len(mlines), len(run["events"])))]
@@ -586,7 +605,9 @@ def compare_run(run, mlines, n):
             fx, fy = pfl(x), pfl(y)
             if fx == fy or (fx != fx and fy != fy): continue
             sc = vs.get(nm, max(abs(s.fval), 1.0) if nm == "fval" else 0.0)
-            if not abs(fx - fy) <= 1e-9 * max(abs(fx), abs(fy), sc):
+            # setInitialSolution over a float cache forms alpha_i * row_i in SINGLE precision (remora: double scalar times float vector)
+            rel = 2.0 ** -20 * n if (cf and name == "setinit" and nm in ("grad", "gedge", "fval")) else 1e-9
+            if not abs(fx - fy) <= rel * max(abs(fx), abs(fy), sc):
                 dis.append((ev, "%s[%d]: implementation %s model %s" % (nm, (p - 3) % n if p >= 3 else 0, x, y))); break
     return dis
 
@@ -616,7 +637,7 @@ def execute(ck, exe, model, cfgs, tmpd, tag):
         K = indep_kernel(c)
         r["stats"] = {}
         mon = monitor(c, r, K, stats=r["stats"])
-        dis = compare_run(r, mruns.get(c["id"], []), c["n"]) if not r["exc"] else []
+        dis = compare_run(r, mruns.get(c["id"], []), c["n"], c["matrix"].startswith("cf")) if not r["exc"] else []
         if not r["exc"]: dis += reshrink_tie(r, rruns.get(c["id"], []), c["n"])
         res.append((c, r, dis, mon))
     return res
@@ -712,6 +733,9 @@ def main():
         ck.oblige("harness builds against /repo", False, err); ck.finish()
     tmpd = os.path.join(BUILD, "tmp", PID); os.makedirs(tmpd, exist_ok=True)
     big = ck.tier == "thorough"
+    LATENT["setinit"] = bool(os.environ.get("C08_HIST_SETINIT")) or ck.match_known(LATENT_KEYS["setinit"]) is not None
+    LATENT["setshr"] = bool(os.environ.get("C08_HIST_SETSHRINKING")) or ck.match_known(LATENT_KEYS["setshr"]) is not None
+    ck.notes["latent_defect_generators"] = dict(LATENT)
     cfgs = []
     if ck.replay:
         for l in open(ck.replay).read().split("\n"):
@@ -743,7 +767,7 @@ def main():
             a["runs"] = a.get("runs", 0) + 1; a["smo_steps"] = a.get("smo_steps", 0) + sum(e[1] for e in r["ends"])
             if c["stream"] == "hist":
                 a["mutator_events"] = a.get("mutator_events", 0) + sum(1 for e in r["events"] if e[0] in MUTATORS)
-                if len(r["ends"]) >= 2: a["second_solves"] = a.get("second_solves", 0) + 1
+                if any(o[0] == "SOLVE2" for o in r["order"]): a["second_solves"] = a.get("second_solves", 0) + 1
             nev += len(r["events"])
             prev = r["s0"]
             for name, args, s, raw in r["events"]:
